@@ -1,4 +1,4 @@
-HOOK_COMMITS = ["d869105", "e59ce26", "35ed34d", "d450ab3", "c36ddc2", "fc4b279", "9222982"]
+HOOK_COMMITS = ["d869105", "e59ce26", "35ed34d", "d450ab3", "c36ddc2", "fc4b279", "9222982", "f632a6c"]
 
 NOTES = ("Technique family: deterministic simulation with fault injection. 12 of 20 properties are pure functions of their input "
          "(no schedule, clock, second party or fault in the statement) and are listed as not applicable, see DESIGN.md sections 2 and 7. "
